@@ -1,12 +1,16 @@
 """C18 — topology diagnosis and root repair: sidecar contracts."""
 import z3
 
+from pyvc import ext_C18
+
 from pyvc.spec import Registry, SpecFn
-from pyvc.values import PList, SArr, Sym, fresh_name, to_z3, zint
+from pyvc.values import PDict, PList, SArr, Sym, fresh_name, to_z3, zint
 
 DSU = "swcgeom/utils/dsu.py"
 CHK = "swcgeom/core/swc_utils/checker.py"
 NORM = "swcgeom/core/swc_utils/normalizer.py"
+
+ext_C18.install()
 
 # ---------------------------------------------------------------------------
 # DisjointSetUnion against an abstract partition view.
@@ -622,19 +626,32 @@ def register_get_dsu(R):
         i = z3.Int("i18")
         E.prove("get_dsu/step/every-row-has-a-parent-row", z3.ForAll([i], z3.Implies(T.R(i), z3.And(T.R(T.e(i)), z3.Select(T.ID, T.e(i)) == T.key(i)))), "annotation")
 
+    def labels_of(v):
+        """the label array: the one int array among the locals (looked up by type, not by name: renaming it is harmless)"""
+        c = [x for k_, x in v.items() if isinstance(x, SArr) and x.kind == "int" and k_ != "result"]
+        if len(c) != 1:
+            raise KeyError("get_dsu: expected exactly one int array among the locals")
+        return c[0]
+
+    def flag_of(v):
+        c = [x for k_, x in v.items() if isinstance(x, bool) or (isinstance(x, Sym) and x.kind == "bool")]
+        if len(c) != 1:
+            raise KeyError("get_dsu: expected exactly one boolean local")
+        return c[0]
+
     def initial_labels(E, v, o):
         """annotation after `dsu = np.array([id2idx[i] for i in dsu])`: the labels start as the parent rows e(i)"""
-        if "id2idx" not in v or "flag" in v:
+        if not any(isinstance(x, PDict) for x in v.values()) or any(isinstance(x, (bool, Sym)) for x in v.values()):
             return True  # the first assignment to `dsu` (the parent ids, not yet rows) / the stores inside the loop
         T = Table18(E, o["df"])
-        d = v["dsu"]
+        d = labels_of(v)
         i = z3.Int("i18")
         return z3.And(d.nz() == T.n, z3.ForAll([i], z3.Implies(T.R(i), z3.Select(d.arr, i) == T.e(i))))
 
     def inv(which):
         def f(E, v, o):
             T = Table18(E, o["df"])
-            d = v["dsu"]
+            d = labels_of(v)
             L = d.arr
             i, x = z3.Int("i18"), z3.Int("x18")
             Li = z3.Select(L, i)
@@ -652,7 +669,7 @@ def register_get_dsu(R):
                 return z3.Implies(T.forest(), z3.ForAll([i], z3.Implies(z3.And(T.R(i), T.e(i) != i), dp18(Li) < dp18(i))))
             if which == "no-change-so-far-in-this-pass":
                 k = to_z3(v["_k1"], "int")
-                return z3.Implies(to_z3(v["flag"], "bool"), z3.ForAll([i], z3.Implies(z3.And(i >= 0, i < k), z3.Select(L, Li) == Li)))
+                return z3.Implies(to_z3(flag_of(v), "bool"), z3.ForAll([i], z3.Implies(z3.And(i >= 0, i < k), z3.Select(L, Li) == Li)))
             raise KeyError(which)
 
         return f
@@ -702,9 +719,72 @@ def register_get_dsu(R):
                 "iteration is not proved); the input frame is frozen (any store into it is a failed frame obligation)")
 
 
+# ---------------------------------------------------------------------------------------------------------------
+# is_single_root / check_single_root: "all rows are connected" (an empty table has no root: False)
+def register_single_root(R):
+    def setup(S):
+        df = S.dframe(SWC_COLS)
+        df.frozen = True
+        return dict(df=df, names=None)
+
+    def frame_of(v):
+        if "df" in v:
+            return v["df"]
+        return v["args"][0]  # check_single_root(*args, **kwargs)
+
+    def pre_parents(E, v, o):
+        return Table18(E, frame_of(v)).parents_exist()
+
+    def witness(E, T):
+        """the labelling that separates two rows when the answer is False: the label array get_dsu returned (in the proof of
+        is_single_root itself), the witness handed over by the callee's contract (check_single_root), a fresh one at other call sites"""
+        hits = [kw["__result__"] for nm, kw in E.call_log if nm == "get_dsu" and "__result__" in kw]
+        if len(hits) == 1 and (E.cur_key or "").endswith(":is_single_root"):
+            return hits[0].arr
+        if (E.cur_key or "").endswith(":check_single_root") and E.ghost.get("single-root-witness") is not None:
+            return E.ghost["single-root-witness"]
+        w = z3.Const(fresh_name("separating_labels"), z3.ArraySort(_I, _I))
+        E.ghost["single-root-witness"] = w
+        return w
+
+    def post(which):
+        def f(E, v, o):
+            T = Table18(E, frame_of(o))
+            res = to_z3(v["result"], "bool")
+            i, j = z3.Int("i18"), z3.Int("j18")
+            if which == "true-only-if-all-rows-are-connected(every-labelling-constant-along-edges-is-constant)":
+                return z3.Implies(res, z3.And(T.n >= 1, z3.Implies(T.einv(comp18), z3.ForAll([i, j], z3.Implies(z3.And(T.R(i), T.R(j)), comp18(i) == comp18(j))))))
+            if which == "false-only-if-some-rows-are-not-connected(a-labelling-constant-along-edges-separates-two-rows)":
+                W = witness(E, T)
+                const_along_edges = z3.ForAll([i], z3.Implies(T.R(i), z3.Select(W, T.e(i)) == z3.Select(W, i)))
+                separates = z3.Exists([i, j], z3.And(T.R(i), T.R(j), z3.Select(W, i) != z3.Select(W, j)))
+                return z3.Implies(z3.Not(res), z3.Or(T.n == 0, z3.And(const_along_edges, separates)))
+            raise KeyError(which)
+
+        return f
+
+    POSTS = ["true-only-if-all-rows-are-connected(every-labelling-constant-along-edges-is-constant)",
+             "false-only-if-some-rows-are-not-connected(a-labelling-constant-along-edges-separates-two-rows)"]
+    R.add(f"{CHK}:is_single_root", prop="C18", setup=setup,
+          requires=[("every-parent-id-names-a-row", pre_parents)], returns="bool",
+          ensures=[(nm, post(nm)) for nm in POSTS],
+          notes="connectivity of the undirected graph of the table, cycles allowed; rests on get_dsu's contract (partial correctness)")
+
+    def setup_legacy(S):
+        df = S.dframe(SWC_COLS)
+        df.frozen = True
+        return dict(args=(df,), kwargs=PDict({}))
+
+    R.add(f"{CHK}:check_single_root", prop="C18", setup=setup_legacy,
+          requires=[("every-parent-id-names-a-row", pre_parents)], returns="bool",
+          ensures=[(nm, post(nm)) for nm in POSTS],
+          notes="deprecated alias: same contract as is_single_root")
+
+
 _reg_5 = register
 
 
 def register(R):  # noqa: F811
     _reg_5(R)
     register_get_dsu(R)
+    register_single_root(R)
